@@ -49,13 +49,6 @@ theorem C14_xor_unix (s : St) (a : Attempt) (regErr : Errno) :
 example : (dialUnix {} { e0 := 0 } 0).2 = .ret true none := by decide
 example : (dialUnix {} { e0 := 2 } 0).2 = .ret false (some (.sysConnect 2)) := by decide
 
-/-- the ledger of a process in which the dial left nothing behind -/
-def NothingLeft (s : St) : Prop :=
-  s.L.opened = s.L.closed ∧ s.L.badClose = 0 ∧ s.L.fdOpen = false ∧   -- every descriptor closed exactly once
-  s.L.allocs = s.L.frees ∧ s.L.badFree = 0 ∧ s.L.tmpSlot = false ∧    -- every operator slot freed exactly once
-  s.L.connSlot = false ∧ s.L.connReg = false ∧
-  s.pd.epoll = false                                                  -- no epoll registration left
-
 /-- **C14_no_leak.** A dial that returns an error has closed every descriptor it opened
 exactly once, freed every operator slot (the temporary one of each connect, and the
 connection's if registration failed) exactly once, and left no epoll registration. -/
